@@ -710,6 +710,8 @@ class Interp:
             return bytes(text[1:-1], 'utf-8').decode('unicode_escape') if '\\' in text else text[1:-1]
         if text.startswith('b"'):
             return Opaque('bytes', text)
+        if text == 'log::STATIC_MAX_LEVEL':
+            return Enum('LevelFilter', 5, 'Trace', [])
         if text.startswith('std::iter::Empty::<'):
             from .models import list_iter
             return list_iter([])
